@@ -78,7 +78,7 @@ def gen():
                         if mid.count(sym) == 1:
                             k = lb + mid.index(sym)
                             cands["S"].append((k, k + len(sym), new, f"{sym}->{new}"))
-        quota = {"D": 10 ** 6, "O": 30, "C": 30, "S": 10 ** 6}
+        quota = {"D": 10 ** 6, "O": int(os.environ.get("MUT_QUOTA", 30)), "C": int(os.environ.get("MUT_QUOTA", 30)), "S": 10 ** 6}
         for kind, lst in cands.items():
             lst = sorted(set(lst))
             if len(lst) > quota[kind]:
@@ -142,7 +142,8 @@ def gen2():
                     a2, b2 = pos(n.args[k + 1])
                     if b1 <= a2 and src[a1:b1] != src[a2:b2]:
                         cands["G"].append((a1, b2, src[a2:b2] + src[b1:a2] + src[a1:b1], f"swap args {k},{k + 1}"))
-        quota = {"V": 40, "A": 20, "L": 30, "G": 25}
+        q_ = os.environ.get("MUT_QUOTA")
+        quota = {"V": 40, "A": 20, "L": 30, "G": 25} if q_ is None else {"V": int(q_), "A": int(q_), "L": int(q_), "G": int(q_)}
         for kind, lst in cands.items():
             lst = sorted(set(lst))
             if len(lst) > quota[kind]:
